@@ -287,7 +287,8 @@ class PoolWorld(object):
       # (a connection made for the consumer's re-entrant request is that request's own business)
       mine = set(s for (ev, s, rid) in self.reg.request_log if rid == 9000)
       ex = [c for c in ex if c.serial not in mine]
-      if not busy and len(ex) > max(self.mn, 0) and self.reqs:
+      opening = any(c.open_ars for c in self.reg.channels)      # a connection whose open has not finished cannot be given back yet
+      if not busy and not opening and len(ex) > max(self.mn, 0) and self.reqs:
         self.v('C07.retain', 'after %r: traffic stopped, %d connections retained, min_watermark is %d (pool %s)'
                % (op, len(ex), self.mn, 'closed' if pool.state == ChannelState.Closed else 'open'),
                pool_closed=pool.state == ChannelState.Closed)
